@@ -467,6 +467,16 @@ def check_C12(chk, tier, seed):
                             toks.append(f"P {hx(hops[i])}")
                     toks += [f"PT {hx(hops[un[0]])} {hx(cut)}", "B eof" if cut % 2 else "B reset"]
                     cases.append((line(toks), toks, "cut-inside-answer"))
+    # a request sent again under the SAME hop-by-hop id (a retransmission): the older future fails at once (superseded); the caller
+    # drops it - before or after the newer send, before or after the answer - and the newer future gets the answer
+    for k, toks in enumerate([
+            ["R 51", "W", "R 51", "W", "D 0", "P 51"],
+            ["R 51", "W", "R 51", "D 0", "W", "P 51"],
+            ["R 51", "W", "R 51", "W", "P 51", "D 0"],
+            ["R 51", "W", "R 52", "W", "R 51", "W", "D 0", "P 52", "P 51"],
+            ["R 51", "W", "R 51", "W", "R 51", "W", "D 0", "D 1", "P 51"],
+            ["R 51", "W", "R 51", "W", "D 0", "T 3e8", "P 51", "R 53", "W", "P 53"]]):
+        cases.append((line(toks), toks, "resend"))
     # MANY requests outstanding when the stream ends (more than any window, table capacity or permit pool a client might keep:
     # 300, 1100, 2100; thorough 70000), some answered first; every future fails, and one more send afterwards is refused
     for n in (300, 1100, 2100) if tier == "quick" else (300, 1100, 2100, 70000):
@@ -599,6 +609,11 @@ def check_C12(chk, tier, seed):
                 chk.violation("the reader did not stop after the peer closed / reset / sent an undecodable message", dict(case=c, impl=short(im)))
             elif kind == "many":
                 pass
+            elif kind == "resend":
+                if outs[-1 if toks[-1].startswith("P 53") else len(outs) - 1].startswith("GOT") is False or not any(o.startswith("GOT") for o in outs):
+                    ok = False
+                    chk.violation("a request sent again under the same hop-by-hop id did not get the answer the peer sent after the older, superseded future "
+                                  "had been dropped by the caller", dict(case=c, impl=short(im)))
             else:
                 # while the reader is alive, a pending future must be one whose answer was never emitted after its registration
                 reqs = [(j, int(x.split()[1], 16)) for j, x in enumerate(toks) if x.startswith(("R ", "RX "))]
@@ -620,6 +635,20 @@ def check_C12(chk, tier, seed):
             chk.corr_break("client observation differs from the model", dict(case=c, impl=short(im), model=short(mo)))
         if i % max(1, len(cases) // 6) == 0:
             chk.sample(dict(case=c, impl=short(im, 200), P=ok))
+    if tier == "thorough":
+        # the same histories once more with library and harness built in the release profile (no debug assertions, no overflow
+        # checks): what a future ends up with must not depend on the build profile
+        rel = core.build_harness("release")
+        sub = [i for i, c in enumerate(cases) if c[2] in ("cut", "cut-inside-answer", "resend") or i % 5 == 0]
+        sub = [i for i in sub if i not in big and cases[i][2] != "burst"]
+        rimpl = core.run_sharded([rel, "codec"], eng.prelude, [lines[i] for i in sub], timeout=1800)
+        chk.extra["release_profile_histories"] = len(sub)
+        for i, ri in zip(sub, rimpl):
+            chk.count("release-profile")
+            if ri != impl[i]:
+                chk.violation("the outcome of a client history depends on the build profile (release differs from dev): in the release build "
+                              + ("a response future is left pending" if "PENDING" in ri and "PENDING" not in impl[i] else "the observation differs"),
+                              dict(case=lines[i], impl=short(ri), dev_profile=short(impl[i])))
     reconn_cases(chk, eng, "C12", ["overlap", "failed", "tlsfail"], 2 if tier == "quick" else 10)
     chk.rule = ("1..4 outstanding requests x every subset of answers already delivered x {EOF, reset, undecodable octets, unknown AVP}; the answer stream cut at "
                 f"EVERY octet offset inside a pending answer; {nrand} random histories with repeated ids (superseded waiters), unmatched answers, answers racing the "
